@@ -636,7 +636,6 @@ class DCMotor(MotorBase):
            .. math::
                i_{lim} \left( D \right) = D \, i_{max}
         """
-        maximum_electric_current = self.pwm*self.maximum_electric_current
         pwm_min = self.no_load_electric_current/self.maximum_electric_current
         if abs(self.pwm) <= pwm_min:
             if pwm_min == 0:
@@ -652,27 +651,19 @@ class DCMotor(MotorBase):
             return
         elif self.pwm > pwm_min:
             no_load_electric_current = self.no_load_electric_current
-            maximum_torque = \
-                self.maximum_torque*(
-                    (maximum_electric_current -
-                        self.no_load_electric_current) /
-                    (self.maximum_electric_current -
-                        self.no_load_electric_current)
-                )
         else:
             no_load_electric_current = -self.no_load_electric_current
-            maximum_torque = \
-                self.maximum_torque*(
-                    (maximum_electric_current +
-                        self.no_load_electric_current) /
-                    (self.maximum_electric_current -
-                        self.no_load_electric_current)
-                )
 
+        # The ratio (i_max^D - i_0)/T_max^D equals (i_max - i_0)/T_max for
+        # every pwm outside the dead zone, so it is computed in this form,
+        # which does not divide by a T_max^D that vanishes at the dead zone
+        # boundary.
         self.electric_current = Current(
             value=(
-                (maximum_electric_current - no_load_electric_current) *
-                (self.driving_torque/maximum_torque) + no_load_electric_current
+                (self.maximum_electric_current -
+                    self.no_load_electric_current) *
+                (self.driving_torque/self.maximum_torque) +
+                no_load_electric_current
             ).value,
             unit=self.maximum_electric_current.unit
         )
